@@ -11,6 +11,9 @@ CHECKS = {
  'C02': ('bounded-exhaustive enumeration + proptest generators against an independent pushdown recogniser of the event grammar',
          'Same input spaces as C01; pull and push event streams on two back-ends must be a prefix (or, without error, a whole sentence) of the YAML event grammar with the anchor/alias id rules.',
          'Grammar only; the recogniser (harness/src/oracle/grammar.rs) is trusted.', '5 C02'),
+ 'C08': ('bounded-exhaustive enumeration over the literal alphabet + proptest templates against a hand-written core-schema matcher (must/may outcomes)',
+         'Every string of length <= 4 (quick) / <= 5 (thorough) over the 36 characters that occur in core-schema literals x 16 (style, tag) pairs through the resolver API, every string of length <= 3 / <= 4 x 12 pairs through load_from_str of a rendered document, plus boundary-number and word templates; borrowed vs owned resolvers compared.',
+         'f64::from_str is trusted for the value of an accepted float literal; "within 64 bits" read as fits-i64 (I2).', '5 C08'),
  'C10': ('differential testing across six Input back-ends over bounded-exhaustive and proptest-generated inputs',
          'C01 spaces + exhaustive scope with CR / multi-byte characters + block scalars under indentation 0..140: (event, span) lists and first error identical on StrInput, BufferedInput and TestInput<8,16,64,128>.',
          'TestInput replicates BufferedInput semantics with another capacity (>= 8); differential only (paired with the model-based checks).', '5 C10'),
